@@ -73,13 +73,17 @@ PROPS = {
             "runs": {"quick": 300000, "thorough": 400000000},
             "budget": {"quick": 40, "thorough": 900},
             "enum_every": {"quick": 100, "thorough": 25},
+        }, {
+            "id": "C12-conc", "bin": "c12c", "flavour": "tsan",
+            "runs": {"quick": 60000, "thorough": 400000000},
+            "budget": {"quick": 15, "thorough": 300},
         }],
-        "technique": "deterministic simulation with fault injection: seeded read/save/restore/parse histories over a simulated stream buffer (chunked refills, injected read errors, failing seeks, truncation) against a text+index model with line/column recomputed from scratch; differential run of every grammar against a real stringbuf; minimised replay",
-        "level_text": "Seeded search over texts (newline-heavy, up to 25/40 characters, char and wchar_t) and histories (up to 40) of get_char / get_position / set_position(saved) / character-level parsers / 9 compound grammars on parse::detail::stream, the stream buffer being simulated (chunk sizes 1,2,3,7,whole; with and without put-back support; refills that throw; seeks/tells that fail; truncation at an arbitrary byte) or real (stringbuf, filebuf, and a wide filebuf over a UTF-8 file whose positions count bytes). Every returned character, offset, line and column is compared with a model that recomputes them from scratch; error texts of literal/char_set must carry the location immediately after the offending character; after a read error no call may yield a character and a grammar may only fail or yield what the text before the error yields; after a failed seek only failure or the true next character is accepted. Sampling, not proof.",
+        "technique": "deterministic simulation with fault injection: seeded read/save/restore/parse histories over a simulated stream buffer (chunked refills, injected read errors, failing seeks, truncation) against a text+index model with line/column recomputed from scratch; differential run of every grammar against a real stringbuf; second engine: 2-4 fibers under the seeded scheduler, each with its own streams, ThreadSanitizer (fiber API) as monitor, differential against the same job run alone; minimised replay",
+        "level_text": "Seeded search over texts (newline-heavy, up to 25/40 characters, char and wchar_t) and histories (up to 40) of get_char / get_position / set_position(saved) / character-level parsers / 9 compound grammars on parse::detail::stream, the stream buffer being simulated (chunk sizes 1,2,3,7,whole; with and without put-back support; refills that throw; seeks/tells that fail; truncation at an arbitrary byte) or real (stringbuf, filebuf, and a wide filebuf over a UTF-8 file whose positions count bytes). Every returned character, offset, line and column is compared with a model that recomputes them from scratch; error texts of literal/char_set must carry the location immediately after the offending character; after a read error no call may yield a character and a grammar may only fail or yield what the text before the error yields; after a failed seek only failure or the true next character is accepted. Second engine (C12-conc): 2-4 simulated threads, each parsing its own texts through its own stream; each job must give the same characters, position, result or complete error message as when it runs alone, and ThreadSanitizer must stay silent (streams that share nothing do not influence each other). Sampling, not proof.",
         "level_note": "Stubs: the streambuf (sim::StreamBuf) in 70% of the runs; real std::basic_stringbuf / std::basic_filebuf in the rest (no faults there). Trusted: the text+index model, a real stringbuf as the reference for grammar results, ASan/UBSan, the harness.",
-        "rule": "One run = one text plus one history of stream operations executed on one parse stream; about a third of the runs inject read errors / seek failures / truncation. Non-trivial = at least 3 effective operations.",
+        "rule": "One run = one text plus one history of stream operations executed on one parse stream; about a third of the runs inject read errors / seek failures / truncation. Non-trivial = at least 3 effective operations. C12-conc: one run = 2-4 fibers x 1-4 parse jobs under one seeded schedule; non-trivial = at least 2 jobs.",
         "real": REAL_COMMON + ["parse::detail::stream, get_char/get_position/set_position, basic_literal/char_set/char/string, all operators, phrase_parse", "std::basic_istream, std::basic_stringbuf, std::basic_filebuf"],
-        "stub": ["stream buffer behind the istream (sim::StreamBuf: chunking, read errors, seek failures, truncation) in 70% of the runs"],
+        "stub": ["stream buffer behind the istream (sim::StreamBuf: chunking, put-back on/off, read errors, seek failures, truncation) in 70% of the runs", "thread scheduling, per-thread storage and exception state (fiber scheduler; C12-conc engine)"],
         "assumptions": ["a failed seek leaves the file position unchanged (as the simulated buffer implements it)",
                         "after a read error every later operation may fail; none may produce a character"],
     },
@@ -91,7 +95,7 @@ PROPS = {
             "enum_every": {"quick": 50, "thorough": 20},
         }],
         "technique": "deterministic simulation with fault injection: seeded write-then-read scenarios over simulated files (torn/short writes, truncation at an arbitrary byte, chunked and failing reads) and over a simulated codecvt facet (narrowed output windows, injected errors, torn encodings); oracle 'value read == value written, or failure, never another value'; byte layout on the simulated disk; minimised replay",
-        "level_text": "Covers the stream- and facet-facing subset of C15: io::write -> io::read for ten arithmetic types and both byte orders (including the byte layout on the simulated disk), write_chars -> read_chars, operator<< / operator>> of math::vector, math::dim and an enum over char and wchar_t streams, narrow_locale / widen_locale through a simulated codecvt facet layered on the real C.utf8 facet (strings of 0-40 characters, one in sixteen 41-2048), and in fault-free conversions also narrow / widen / from_std_wstring / to_std_wstring with the environment's locale set to C.UTF-8. Faults: the writer's file accepts only n bytes (torn write), the reader sees only the first n bytes (lost tail), refills throw, the facet offers narrow output windows on its first calls (legal partial results), answers partial for ever from some offset, or reports an error, encodings are torn inside a character. Oracle: every acknowledged value lying wholly in the file reads back exactly; a torn or missing value yields failure, never a value; no read succeeds after a failed one; conversions return the complete result or report failure (a strict prefix is 'silent truncation'). endianness::swap twice, output_to_string -> extract_from_string and enum to_string -> from_string ride along in fault-free runs only. NOT covered: the exhaustive sweep over all Unicode scalar values and all 8/16-bit integers (pure input enumeration, no seam). Sampling, not proof.",
+        "level_text": "Covers the stream- and facet-facing subset of C15: io::write -> io::read for ten arithmetic types and both byte orders (including the byte layout on the simulated disk), write_chars -> read_chars, operator<< / operator>> of math::vector, math::dim and an enum over char and wchar_t streams, narrow_locale / widen_locale through a simulated codecvt facet layered on the real C.utf8 facet (strings of 0-40 characters, one in sixteen 41-2048), and in fault-free conversions also narrow / widen / from_std_wstring / to_std_wstring with the environment's locale set to C.UTF-8. Faults: the writer's file accepts only n bytes (torn write), the reader sees only the first n bytes (lost tail), refills throw, the facet offers narrow output windows on its first calls (legal partial results), answers partial for ever from some offset, or reports an error, encodings are torn inside a character. Oracle: every acknowledged value lying wholly in the file reads back exactly; a torn or missing value yields failure, never a value; no read succeeds after a failed one; conversions return the complete result or report failure (a strict prefix is 'silent truncation'). output_to_std_string / output_to_std_wstring -> extract_from_string also run with injected allocation failures (a conversion hit by one reports it or returns the complete text, and later conversions are unaffected); endianness::swap twice and enum to_string -> from_string ride along in fault-free runs only. NOT covered: the exhaustive sweep over all Unicode scalar values and all 8/16-bit integers (pure input enumeration, no seam). Sampling, not proof.",
         "level_note": "Stubs: the files behind the streams (sim::StreamBuf), the codecvt facet wrapper (sim::Codecvt over the real C.utf8 facet). Trusted: an independent UTF-8 encoder as reference, the harness, ASan/UBSan. long double is excluded (padding bytes do not survive by-value passing).",
         "rule": "One run = 1-6 independent write-then-read scenarios (binary values, raw chars, text formats, codecvt conversions), half of the runs with injected faults. Every scenario counts as non-trivial; distinct = distinct plans.",
         "real": REAL_COMMON + ["io::read/write, endianness::convert/swap/reverse_mem, write_chars/read_chars, enum_::input/output/to_string/from_string, math vector/dim input/output, impl::codecvt via narrow_locale/widen_locale, output_to_string/extract_from_string", "the real C.utf8 codecvt facet underneath sim::Codecvt"],
